@@ -2,6 +2,7 @@ package main
 
 import (
 	"fmt"
+	"os"
 	"strings"
 
 	req "github.com/imroc/req/v3"
@@ -27,7 +28,7 @@ func genSetter(rng *hk.Rand, g *genState, client bool) setter {
 		return out
 	}
 	for {
-		switch k := rng.Intn(100); {
+		switch k := rng.Intn(132); {
 		case k < 10: // cookies
 			return setter{K: "append", F: 0, Vs: vs(3)}
 		case k < 16:
@@ -63,9 +64,10 @@ func genSetter(rng *hk.Rand, g *genState, client bool) setter {
 			return setter{K: "raddcond", Val: rng.Range(1, 9)}
 		case k < 78:
 			if client {
-				key := rng.Intn(6)
+				key := rng.Intn(nScal)
 				val := rng.Range(0, 3)
-				if key == 2 || key == 4 {
+				switch key {
+				case 2, 4, 7, 9, 10, 13, 20, 21:
 					val = rng.Intn(2)
 				}
 				return setter{K: "scal", Key: key, Val: val}
@@ -86,10 +88,66 @@ func genSetter(rng *hk.Rand, g *genState, client bool) setter {
 			if client {
 				return setter{K: "jarplain"}
 			}
-		default:
+		case k < 100:
 			if client {
 				g.jarTok++
 				return setter{K: "jarstore", Val: g.jarTok}
+			}
+		case k < 105:
+			if client {
+				return setter{K: "sliceset", F: 5 + rng.Intn(2), Vs: vs(3)}
+			}
+		case k < 113:
+			if client {
+				n := rng.Range(1, 3)
+				var es []edit
+				for i := 0; i < n; i++ {
+					switch j := rng.Intn(10); {
+					case j < 2:
+						es = append(es, edit{K: "set", I: 0, V: rng.Intn(2)})
+					case j < 7:
+						es = append(es, edit{K: "cert", V: rng.Range(1, 9)})
+					default:
+						es = append(es, edit{K: "root", V: rng.Range(1, nRoots)})
+					}
+				}
+				return setter{K: "tlsedit", Es: es}
+			}
+		case k < 115:
+			if client {
+				l := []int{rng.Intn(2), rng.Intn(3)}
+				for i := 0; i < l[1]; i++ {
+					l = append(l, rng.Range(1, 9))
+				}
+				first := rng.Range(1, nRoots)
+				for i := 0; i < rng.Intn(3); i++ {
+					l = append(l, (first+i-1)%nRoots+1) // distinct roots
+				}
+				return setter{K: "tlsnew", Vs: l}
+			}
+		case k < 123:
+			if client {
+				apis := []string{"all", "to", "to", "async", "noreqbody", "norespbody", "noresp", "noreq", "noheader", "nobody"}
+				s := setter{K: "dumpenable", Api: hk.Pick(rng, apis)}
+				if s.Api == "to" {
+					s.Val = rng.Range(1, nSinks+1)
+				}
+				return s
+			}
+		case k < 125:
+			if client {
+				return setter{K: "dumpdisable"}
+			}
+		default:
+			if client {
+				l := []int{rng.Range(1, nSinks+1), rng.Intn(2), rng.Intn(2), rng.Intn(2), rng.Intn(2), 0}
+				if rng.Chance(10) {
+					l[5] = 1
+				}
+				if k < 129 {
+					return setter{K: "dumpsetopts", Vs: l}
+				}
+				return setter{K: "dumptransport", Vs: l}
 			}
 		}
 	}
@@ -180,6 +238,7 @@ func runProgram(r *hk.Run, e *env, rng *hk.Rand, p []op, label string) {
 		r.Fail(hk.Failure{Sig: sig, What: what, Input: map[string]interface{}{"program": progStrings(p[:step+1]), "label": label}, Got: got, Want: want})
 	}
 	clones, afterClone := 0, 0
+	lastProbe := map[int]desc{}
 	for i, o := range p {
 		variant := rng.Intn(2)
 		var execObs desc
@@ -190,6 +249,7 @@ func runProgram(r *hk.Run, e *env, rng *hk.Rand, p []op, label string) {
 			refC[o.C] = newRefObj()
 			refC[o.C].sl[4] = []int{100, 101}
 			refC[o.C].jar, refC[o.C].fact = &[]int{}, true
+			refC[o.C].tls = &refTLS{} // a new client starts with a TLS config (T())
 			live = append(live, o.C)
 		case "set":
 			if o.O.Req {
@@ -258,7 +318,12 @@ func runProgram(r *hk.Run, e *env, rng *hk.Rand, p []op, label string) {
 				fail(i, sigFor(o, c, k), what, d[k], want[k])
 			}
 			so.Probes[fmt.Sprint(c)] = d
-			probes = append(probes, fmt.Sprintf("(%d, %s)", c, d.coq()))
+			// the Coq case carries a probe only when it differs from the client's previous one
+			// (the checker holds the others against the model again, see Model/C19Run.v)
+			if prev, ok := lastProbe[c]; !ok || firstDiff(prev, d) >= 0 {
+				probes = append(probes, fmt.Sprintf("(%d, %s)", c, d.coq()))
+				lastProbe[c] = d
+			}
 			r.Count("probes")
 		}
 		obs = append(obs, so)
@@ -314,11 +379,19 @@ func runC19(r *hk.Run) {
 	rng := hk.NewRand(r.Seed)
 	e := newEnv()
 	defer e.srv.Close()
+	// EnableDumpAll's default output is os.Stdout: keep the probes' dumps out of the harness output
+	if devnull, err := os.OpenFile(os.DevNull, os.O_WRONLY, 0); err == nil {
+		saved := os.Stdout
+		os.Stdout = devnull
+		defer func() { os.Stdout = saved; devnull.Close() }()
+	}
 
 	// fixed scenarios first (the shapes design-time reading pointed at)
 	for i, sc := range scenarios() {
 		runProgram(r, e, rng, sc, fmt.Sprintf("scenario-%d", i))
 	}
+	runPostExec(r, e, rng, r.Scale(150, 3000))
+	runH2C(r, e)
 	n := r.Scale(400, 8000)
 	for i := 0; i < n; i++ {
 		ln := 25
@@ -352,6 +425,18 @@ func scenarios() [][]op {
 		// maps: clone, then both sides set/add
 		{nc, cset(0, setter{K: "mapadd", F: 0, Key: 1, Val: 1}), cset(0, setter{K: "mapadd", F: 0, Key: 1, Val: 2}), cset(0, setter{K: "mapadd", F: 0, Key: 1, Val: 3}), cset(0, setter{K: "mapadd", F: 1, Key: 2, Val: 1}), cset(0, setter{K: "mapadd", F: 2, Key: 3, Val: 1}), cset(0, setter{K: "mapset", F: 3, Key: 1, Val: 1}), cl(0, 1),
 			cset(0, setter{K: "mapadd", F: 0, Key: 1, Val: 4}), cset(1, setter{K: "mapadd", F: 0, Key: 1, Val: 5}), cset(0, setter{K: "mapadd", F: 1, Key: 2, Val: 4}), cset(1, setter{K: "mapadd", F: 1, Key: 2, Val: 5}), cset(1, setter{K: "mapadd", F: 2, Key: 3, Val: 5}), cset(1, setter{K: "mapset", F: 3, Key: 1, Val: 5}), cl(1, 2)},
+		// dump: the clone's dump setters must act on the clone's own running Dumper, as on the original
+		{nc, cset(0, setter{K: "dumpenable", Api: "to", Val: 2}), cl(0, 1), cset(1, setter{K: "dumpenable", Api: "nobody"}), cset(0, setter{K: "dumpenable", Api: "noheader"}), cset(1, setter{K: "dumpenable", Api: "to", Val: 3}), cl(1, 2), cset(2, setter{K: "dumpenable", Api: "noresp"}), cset(1, setter{K: "dumpdisable"}), cset(1, setter{K: "dumpenable", Api: "all"})},
+		// a Dumper given to the transport directly has options of its own, before and after Clone
+		{nc, cset(0, setter{K: "dumptransport", Vs: []int{2, 1, 0, 1, 0, 0}}), cset(0, setter{K: "dumpenable", Api: "nobody"}), cl(0, 1), cset(1, setter{K: "dumpenable", Api: "to", Val: 3}), cset(1, setter{K: "dumpsetopts", Vs: []int{4, 1, 1, 0, 0, 0}}), cset(0, setter{K: "dumpdisable"}), cset(0, setter{K: "dumpenable", Api: "all"})},
+		// client certificates: one-by-one registration reaches len 3 / cap 4, clone, both sides add
+		{nc, cset(0, setter{K: "tlsedit", Es: []edit{{"cert", 0, 1}}}), cset(0, setter{K: "tlsedit", Es: []edit{{"cert", 0, 2}}}), cset(0, setter{K: "tlsedit", Es: []edit{{"cert", 0, 3}}}), cl(0, 1), cset(0, setter{K: "tlsedit", Es: []edit{{"cert", 0, 4}}}), cset(1, setter{K: "tlsedit", Es: []edit{{"cert", 0, 5}}}), cl(0, 2)},
+		// root CA pool: a root trusted by the clone must not become trusted by the original
+		{nc, cset(0, setter{K: "tlsedit", Es: []edit{{"root", 0, 1}}}), cl(0, 1), cset(1, setter{K: "tlsedit", Es: []edit{{"root", 0, 2}}}), cset(0, setter{K: "tlsedit", Es: []edit{{"root", 0, 3}, {"root", 0, 1}}}), cset(1, setter{K: "tlsedit", Es: []edit{{"set", 0, 1}}}), cl(1, 2), cset(2, setter{K: "tlsnew", Vs: []int{0, 1, 7, 4}})},
+		// http2 settings / priority frames and the field-by-field copied http2 scalars
+		{nc, cset(0, setter{K: "sliceset", F: 5, Vs: []int{1, 2, 3}}), cset(0, setter{K: "sliceset", F: 6, Vs: []int{4}}), cset(0, setter{K: "scal", Key: 11, Val: 2}), cset(0, setter{K: "scal", Key: 12, Val: 3}), cset(0, setter{K: "scal", Key: 13, Val: 1}), cset(0, setter{K: "scal", Key: 14, Val: 1}), cset(0, setter{K: "scal", Key: 15, Val: 2}), cset(0, setter{K: "scal", Key: 16, Val: 3}), cset(0, setter{K: "scal", Key: 17, Val: 2}), cl(0, 1), cset(1, setter{K: "sliceset", F: 5, Vs: []int{9}}), cset(0, setter{K: "scal", Key: 12, Val: 1}), cl(1, 2)},
+		// the other value-typed transport / client settings
+		{nc, cset(0, setter{K: "scal", Key: 6, Val: 2}), cset(0, setter{K: "scal", Key: 7, Val: 1}), cset(0, setter{K: "scal", Key: 8, Val: 3}), cset(0, setter{K: "scal", Key: 9, Val: 1}), cset(0, setter{K: "scal", Key: 10, Val: 1}), cset(0, setter{K: "scal", Key: 18, Val: 2}), cset(0, setter{K: "scal", Key: 19, Val: 1}), cset(0, setter{K: "scal", Key: 20, Val: 1}), cset(0, setter{K: "scal", Key: 21, Val: 1}), cl(0, 1), cset(1, setter{K: "scal", Key: 6, Val: 0}), cset(1, setter{K: "scal", Key: 9, Val: 0}), cset(0, setter{K: "scal", Key: 8, Val: 1}), cl(1, 2)},
 		// cookie jars: factory (own jar per clone) and the documented shared plain jar
 		{nc, cset(0, setter{K: "jarstore", Val: 1}), cl(0, 1), cset(1, setter{K: "jarstore", Val: 2}), cset(0, setter{K: "jarstore", Val: 3}), cset(0, setter{K: "jarplain"}), cl(0, 2), cset(2, setter{K: "jarstore", Val: 4}), cset(0, setter{K: "clearcookies"}), cset(1, setter{K: "clearcookies"})},
 	}
